@@ -665,10 +665,14 @@ func (r *vfC15Run) checkDelivery(rt *rapid.T, vf *vfCollector) (mixed, besideSta
 					}
 					if !handled {
 						key := "eligible-subscriber-missed"
-						if r.staleRoutedAt(m.Topic, m.QoS) {
-							// the fan-out had to pass an id it finds no connection for
+						switch stale := r.staleRoutedAt(m.Topic, m.QoS); {
+						case stale && len(cands) > 0:
+							// the fan-out had to pass an id it finds no connection for AND a lower-QoS
+							// subscription: the harness cannot tell which one stopped it
+							key = vfC15KeyStale + "-and-a-lower-qos-subscription"
+						case stale:
 							key = vfC15KeyStale
-						} else if len(cands) > 0 {
+						case len(cands) > 0:
 							key = cands[0]
 						}
 						vf.Violation(rt, key, "c%d (matching subscription QoS %v) never got message %+v\n%s", i, mq, m, r.dump())
